@@ -361,6 +361,11 @@ func GenGraph(t *rapid.T, s *hx.Schema, p Profile, leaf LeafFn) *hx.Graph {
 			return hx.Nil()
 		}
 		if tr.List != nil {
+			if p.Hostile && p.Strategy == "R" && rapid.IntRange(0, 11).Draw(t, label+"notAList") == 0 {
+				// a Resolver handing over something that is no list at all for a list typed field
+				// (only Resolver objects can: reflection fields are typed, a root resolver decides itself what a list is)
+				return rapid.SampledFrom([]hx.Val{hx.Str("not a list"), hx.I64(5), hx.Bool(true), hx.F64(1.5), hx.Map(hx.KV{Key: "a", V: hx.I64(1)})}).Draw(t, label+"notAListV")
+			}
 			n := rapid.IntRange(0, 3).Draw(t, label+"len")
 			vs := make([]hx.Val, 0, n)
 			if hint < 0 && rapid.Bool().Draw(t, label+"homog") {
